@@ -110,7 +110,8 @@ def fam_options(tier: str) -> Iterator[Dict[str, Any]]:
                 body = f"{I}choice{' ' + name if name else ''}\n" + "".join(f"{I}{I}{copts[o]}\n" for o in combo) + "\n" + members + f"{I}endchoice\n"
                 yield {"family": "choiceopt", "construct": "+".join(combo), "files": {"Kconfig": mm(AUX + body)}}
     # menu / comment options
-    for opts in (["depends on A"], ["visible if B"], ["depends on A", "visible if B"], ["visible if B", "depends on A"], ["depends on A", "depends on B"], []):
+    for opts in (["depends on A"], ["visible if B"], ["depends on A", "visible if B"], ["visible if B", "depends on A"], ["depends on A", "depends on B"], [],
+                 ["visible if A", "visible if B"], ["visible if A", "depends on B", "visible if B"]):
         body = f'{I}menu "m"\n' + "".join(f"{I}{I}{o}\n" for o in opts) + "\n" + cfgblock("X", ['bool "x"'], ind=I * 2) + f"{I}endmenu\n"
         yield {"family": "menuopt", "construct": "+".join(opts) or "none", "files": {"Kconfig": mm(AUX + body)}}
     for opts in (["depends on A"], ["depends on A", "depends on B"], []):
